@@ -426,8 +426,8 @@ func (w *World) Key(ordered bool) [16]byte {
 		}
 	}
 	for i, h := range w.HoldFrom {
-		if h {
-			b = append(b, 0xe0, byte(i))
+		if h != 0 {
+			b = append(b, 0xe0, byte(i), h)
 		}
 	}
 	b = append(b, 0xfa)
